@@ -54,9 +54,16 @@ func (f *Ash) Call(s *slip.Scope, args slip.List, depth int) (result slip.Object
 	switch ti := args[0].(type) {
 	case slip.Fixnum:
 		if sh < 0 {
-			result = slip.Fixnum(uint64(ti) >> -sh)
+			// An arithmetic shift, floor(ti * 2^sh).
+			result = ti >> -sh
 		} else {
-			result = slip.Fixnum(uint64(ti) << sh)
+			var bi big.Int
+			bi.Lsh(big.NewInt(int64(ti)), uint(sh))
+			if bi.IsInt64() {
+				result = slip.Fixnum(bi.Int64())
+			} else {
+				result = (*slip.Bignum)(&bi)
+			}
 		}
 	case slip.Octet:
 		if sh < 0 {
